@@ -31,6 +31,7 @@ structure Sv where
   idleReplies : List (Nat × List Bytes) := []     -- (end offset in `out`, reported names) per idle reply
   blocks : List (List Bytes × Nat × Nat) := []    -- executed request blocks: (lines, start, end offset of the reply)
   authLines : List Bytes := []                    -- lines received while locked (other than password)
+  binLimit : Option Nat := none                   -- set by `binarylimit N`: overrides the URI's chunk limit
 deriving Repr, Inhabited
 
 /-- deterministic picture bytes (contain protocol look-alikes) -/
@@ -69,16 +70,19 @@ def parseArt (uri : Bytes) : Option ArtCfg :=
     | _, _ => none
   | _ => none
 
-/-- reply body of one command, or (code, command name, message) -/
-def execOne (line : Bytes) : Except (Nat × Bytes × Bytes) Bytes :=
+/-- reply body of one command, or (code, command name, message, output written before failing) -/
+def execOne (lim : Option Nat) (line : Bytes) : Except (Nat × Bytes × Bytes × Bytes) Bytes :=
   match Spec.Tok.tokenizeLine line with
-  | none => .error (5, [], str "tokenizer error")
+  | none => .error (5, [], str "tokenizer error", [])
   | some (name, args) =>
     let arg (i : Nat) : Bytes := args.getD i []
     if name == str "ping" then .ok []
     else if name == str "echo" then .ok (str "line: " ++ arg 0 ++ [LF])
     else if name == str "x" then .ok (str "line: " ++ line ++ [LF])
-    else if name == str "fail" then .error (50, str "fail", str "failed " ++ arg 0)
+    else if name == str "fail" then .error (50, str "fail", str "failed " ++ arg 0, [])
+    else if name == str "pfail" then
+      .error (50, str "pfail", str "failed late " ++ arg 0, str "line: partial " ++ arg 0 ++ [LF] ++ str "more: output\n")
+    else if name == str "binarylimit" then .ok []
     else if name == str "bin" then
       let n := (decNat (arg 0)).getD 0
       .ok (str "line: " ++ line ++ [LF] ++ str "binary: " ++ natToDec n ++ [LF] ++ picture 0 n ++ [LF])
@@ -87,21 +91,21 @@ def execOne (line : Bytes) : Except (Nat × Bytes × Bytes) Bytes :=
       .ok (str "line: " ++ List.replicate n 120 ++ [LF])
     else if name == str "readpicture" || name == str "albumart" then
       match parseArt (arg 0) with
-      | none => .error (50, name, str "No such song")
+      | none => .error (50, name, str "No such song", [])
       | some c =>
         let off := (decNat (arg 1)).getD 0
         let src := if name == str "readpicture" then c.emb else c.file
         if src == str "y" then
-          let n := min c.limit (c.size - off)
+          let n := min (lim.getD c.limit) (c.size - off)
           .ok (str "size: " ++ natToDec c.size ++ [LF] ++
             (if name == str "readpicture" && c.mime then str "type: image/x-test\n" else []) ++
             str "binary: " ++ natToDec n ++ [LF] ++ picture off n ++ [LF])
         else if src == str "n" then .ok []
         else
           let code := (decNat src).getD 50
-          if code == 5 then .error (5, [], str "unknown command \"" ++ name ++ str "\"")
-          else .error (code, name, str "No file exists")
-    else .error (5, [], str "unknown command \"" ++ name ++ str "\"")
+          if code == 5 then .error (5, [], str "unknown command \"" ++ name ++ str "\"", [])
+          else .error (code, name, str "No file exists", [])
+    else .error (5, [], str "unknown command \"" ++ name ++ str "\"", [])
 
 def ack (code idx : Nat) (cmd msg : Bytes) : Bytes :=
   str "ACK [" ++ natToDec code ++ [64] ++ natToDec idx ++ str "] {" ++ cmd ++ str "} " ++ msg ++ [LF]
@@ -118,28 +122,46 @@ def change (s : Sv) (name : Bytes) : Sv :=
   let s := if s.pend.contains name then s else { s with pend := s.pend ++ [name] }
   if s.idle then flushIdle s else s
 
-/-- the reply to a request block (one command, or the commands of a list) -/
-def replyBlock (cmds : List Bytes) (isList : Bool) : Bytes :=
+/-- `binarylimit N` as a request: the new limit, if the line is one -/
+def newLimit (lim : Option Nat) (line : Bytes) : Option Nat :=
+  match Spec.Tok.tokenizeLine line with
+  | some (name, args) =>
+    if name == str "binarylimit" then
+      match decNat (args.getD 0 []) with
+      | some n => if n ≥ 1 then some n else lim
+      | none => lim
+    else lim
+  | none => lim
+
+/-- the reply to a request block (one command, or the commands of a list) and the chunk limit
+in force afterwards -/
+def replyBlockL (lim : Option Nat) (cmds : List Bytes) (isList : Bool) : Bytes × Option Nat :=
   if isList then
-    let rec go (i : Nat) : List Bytes → Bytes
-      | [] => str "OK\n"
+    let rec go (i : Nat) (lim : Option Nat) : List Bytes → Bytes × Option Nat
+      | [] => (str "OK\n", lim)
       | c :: cs =>
-        match execOne c with
-        | .ok b => b ++ str "list_OK\n" ++ go (i + 1) cs
-        | .error (code, cmd, msg) => ack code i cmd msg
-    go 0 cmds
+        match execOne lim c with
+        | .ok b =>
+          let (rest, lim') := go (i + 1) (newLimit lim c) cs
+          (b ++ str "list_OK\n" ++ rest, lim')
+        | .error (code, cmd, msg, pre) => (pre ++ ack code i cmd msg, lim)
+    go 0 lim cmds
   else
     match cmds with
     | [c] =>
-      (match execOne c with
-       | .ok b => b ++ str "OK\n"
-       | .error (code, cmd, msg) => ack code 0 cmd msg)
-    | _ => []
+      (match execOne lim c with
+       | .ok b => (b ++ str "OK\n", newLimit lim c)
+       | .error (code, cmd, msg, pre) => (pre ++ ack code 0 cmd msg, lim))
+    | _ => ([], lim)
+
+/-- stateless view (default chunk limits) -/
+def replyBlock (cmds : List Bytes) (isList : Bool) : Bytes := (replyBlockL none cmds isList).1
 
 def respond (s : Sv) (cmds : List Bytes) (isList : Bool) : Sv :=
   let start := s.out.length
-  let s := emitOut s (replyBlock cmds isList)
-  { s with blocks := s.blocks ++ [(cmds, start, s.out.length)] }
+  let (reply, lim) := replyBlockL s.binLimit cmds isList
+  let s := emitOut s reply
+  { s with blocks := s.blocks ++ [(cmds, start, s.out.length)], binLimit := lim }
 
 def isPassword (l : Bytes) : Option Bytes :=
   match Spec.Tok.tokenizeLine l with
